@@ -1,6 +1,9 @@
 import ClipVerif.Proofs.C03
 import ClipVerif.Proofs.C03b
 import ClipVerif.Props.C14
+import ClipVerif.Model.IntersectList
+import ClipVerif.Proofs.IntersectList
+import ClipVerif.Proofs.IntersectProcess
 /-
 C03 — every entry point is total.  Proved for the modelled list-level code: the generated functions
 that index or panic are in the `Except Fault` monad, and the theorems below show when they return
@@ -49,5 +52,28 @@ theorem rectclip_fault_unreachable (rect : Rect64) (path : List Point64) (hne : 
     (hall : ∀ p ∈ path, (getLocation rect p).2 = false) :
     Rect64_Contains rect (getBounds path) = true := by
   exact Proofs.C03b.rectclip_fault_unreachable rect path hne hr hall
+
+/-! ### `processIntersectList` never runs off the end of the node list (model `Model.Ix.process`, tied by
+`models-corr ixlist`; `none` is the real code indexing `intersectList[len]` in its scan for the next node
+whose edges are adjacent, or calling `swapPositionsInAEL` on edges that are the wrong way round) -/
+
+/-- general form: an AEL without duplicates and, in any order, exactly the nodes of its inversions: the
+    scan always finds an adjacent pair, the swap is always legal, every node is processed once, and the
+    AEL ends up sorted with equal-x edges in their original order -/
+theorem processIntersectList_total_gen (key : Nat → Int) (ael : List Nat) (hnd : ael.Nodup)
+    (ns : List Model.Ix.Node) (h : ns.Perm (Proofs.IxProc.invOf key ael)) :
+    ∃ done ael', Model.Ix.process ns ael = some (done, ael') ∧ done.Perm ns ∧ ael'.Perm ael ∧
+      ael'.Pairwise (fun a b => key a ≤ key b) ∧
+      ael'.Pairwise (fun a b => key a = key b → (ael.idxOf a < ael.idxOf b)) := by
+  exact Proofs.IxProc.process_total_gen key ael hnd ns h
+
+/-- the two halves together: whatever order `sort.Slice` leaves the nodes of `buildIntersectList` in,
+    `processIntersectList` processes all of them without a fault and leaves the AEL ordered by x at the
+    top of the scanbeam -/
+theorem doIntersections_total (xs : List Int) (ns : List Model.Ix.Node)
+    (h : ns.Perm (Model.Ix.build xs).2) :
+    ∃ done ael', Model.Ix.process ns (List.range xs.length) = some (done, ael') ∧ done.Perm ns ∧
+      ael'.Perm (List.range xs.length) ∧ ael'.Pairwise (fun a b => xs[a]! ≤ xs[b]!) := by
+  exact Proofs.IxProc.process_total xs ns (h.trans (Proofs.Ix.build_nodes xs))
 
 end C03
